@@ -14,7 +14,11 @@ def prop(id, armed, technique, text, note, na_reason=None):
 NOT_YET = "rules designed in DESIGN.md but not armed in the checker yet; nothing is claimed until they are"
 
 prop("C01", False, "", "", "", NOT_YET)
-prop("C02", False, "", "", "", NOT_YET)
+prop("C02", True,
+     "affine loop/index analysis (segment pair sets), shape rules on the type-checked AST, abstract interpretation over the order domain for the pre-filter and for the comparison-only prefixes of the two segment predicates",
+     "Structural necessary conditions: (R1) the on-segment and the ray test each see exactly the closed ring (chain 0..len-2 plus the closing pair) of every ring; (R2) OnEdge is returned at once, crossings toggle an even-odd status across rings and member polygons, rings are skipped only for len<3 or by the box pre-filter; (R3) the pre-filter is the closed-box test of the ring's own bounds (never skips a point in or on the box; exhaustive over orderings); (R4) the vertex-wise receivers visit everything and return Outside exactly on an Outside vertex; (R5) every answer the two segment predicates give by comparisons alone equals the order-level geometric truth, for all 169 orderings of {p,a,b} per predicate (either perturbation convention). Thin by nature: the final slope comparisons are arithmetic and not decided.",
+     "Not decided: the slope comparisons of rayIntersectsSegment/pointOnSegment (division, rounding), i.e. the classification of points that survive the order-level exits; the caller in area() that passes a reduced polygon with reduced bounds. One reviewed exception in R4: Polygon.Within returns OnEdge for deeply-equal operands.",
+     None)
 prop("C03", False, "", "", "", NOT_YET)
 prop("C04", True,
      "abstract interpretation over the order domain (all weak orderings of the coordinates, exhaustive) + affine loop analysis + path-sensitive guard-freshness dataflow in the iterator closures",
